@@ -592,3 +592,22 @@ def run_case(case, obs):
             if v <= 1.0 and v > obs.worst.get(k_, 0.0):
                 obs.worst[k_] = v
         WORST.clear()
+        # head-room statistics of the regimes where a back-end is known to break (judged all the same) are kept
+        # apart, so that the runner's "worst err/tol" shows the regimes in which the property is expected to hold
+        for k_ in [k_ for k_ in obs.worst if k_.endswith(("_smallscale", "_dask_lowmodes"))]:
+            obs.info.setdefault("defect_regime_worst", {})[k_] = obs.worst.pop(k_)
+
+
+def evidence_extra(results, extras):
+    out = {"refusal_reasons": {}, "tiny_scale_recorded_not_judged": [], "defect_regime_worst": {}}
+    for r in results:
+        if r["status"] == "refused":
+            out["refusal_reasons"][str(r["reason"])] = out["refusal_reasons"].get(str(r["reason"]), 0) + 1
+        info = r.get("info") or {}
+        if "tiny_scale_cov_error" in info:
+            out["tiny_scale_recorded_not_judged"].append(
+                {"scale_exp": info.get("scale_exp"), "alpha": r["case"].get("alpha"), "cov_rel_error": info["tiny_scale_cov_error"]}
+            )
+        for k, v in (info.get("defect_regime_worst") or {}).items():
+            out["defect_regime_worst"][k] = max(out["defect_regime_worst"].get(k, 0.0), v)
+    return out
